@@ -163,6 +163,10 @@ func (s *Solver) checkOnce(asserts []*Term, wantModel bool, extra []*Term) (stri
 		fmt.Fprintf(&b, "(assert %s)\n", a)
 	}
 	key := b.String()
+	// lexicographic order on opaque strings (str.<) inside a large path condition is slow in z3 5.1 and in cvc5 alike
+	// (tried: routing these queries to cvc5 made the job slower); they get a short timeout, so that a change to /repo
+	// which compares opaque names ends in "not decided" within the job's budget instead of crawling
+	strOrder := strings.Contains(key, "(str.< ")
 	if !wantModel {
 		if r, ok := s.cache[key]; ok {
 			statCacheHits.Add(1)
@@ -176,7 +180,7 @@ func (s *Solver) checkOnce(asserts []*Term, wantModel bool, extra []*Term) (stri
 		fmt.Fprintf(&q, "(push)\n")
 	} else {
 		to := s.timeoutMs
-		if s.quick && to > 3000 {
+		if (s.quick || strOrder) && to > 3000 {
 			to = 3000
 		}
 		fmt.Fprintf(&q, "(push)\n(set-option :timeout %d)\n", to)
